@@ -230,7 +230,7 @@ func ruleFinalRender(w *World, r *Report, pfx string) {
 	bad := ""
 	sawFinal := false
 	var errPhi ssa.Value
-	n, over := w.enumPaths(cont, pathOpts{Start: doneArm, InlineDepth: 0}, func(p *Path) {
+	n, over := w.enumPaths(cont, pathOpts{Start: doneArm, InlineDepth: 2, Inline: noInline(render, stateFn, endFn)}, func(p *Path) {
 		if bad != "" || p.Exit != "return" {
 			return
 		}
@@ -280,33 +280,45 @@ func ruleFinalRender(w *World, r *Report, pfx string) {
 	// the final loop repeats while the heap reports change: a loop containing render and the state request whose
 	// continuation condition is the received reply
 	okLoop := false
-	for _, l := range naturalLoops(cont) {
-		if !doneArm.Dominates(l.Header) {
-			continue
+	cands := []*ssa.Function{cont}
+	rl := w.renderLike()
+	for h := range w.contHelpers(cont, rl) {
+		// helpers called from the done arm
+		for _, site := range w.callers[h] {
+			if in, ok := site.(ssa.Instruction); ok && in.Parent() == cont && (doneArm == in.Block() || doneArm.Dominates(in.Block())) {
+				cands = append(cands, h)
+			}
 		}
-		hasRender, hasState, hasRecv := false, false, false
-		for b := range l.Blocks {
-			for _, in := range b.Instrs {
-				if c, ok := in.(*ssa.Call); ok {
-					if c.Call.StaticCallee() == render {
-						hasRender = true
+	}
+	for _, f := range cands {
+		for _, l := range naturalLoops(f) {
+			if f == cont && !doneArm.Dominates(l.Header) {
+				continue
+			}
+			hasRender, hasState, hasRecv := false, false, false
+			for b := range l.Blocks {
+				for _, in := range b.Instrs {
+					if c, ok := in.(*ssa.Call); ok {
+						if c.Call.StaticCallee() == render {
+							hasRender = true
+						}
+						if c.Call.StaticCallee() == stateFn && stateFn != nil {
+							hasState = true
+						}
 					}
-					if c.Call.StaticCallee() == stateFn && stateFn != nil {
-						hasState = true
-					}
-				}
-				if u, ok := in.(*ssa.UnOp); ok && u.Op == token.ARROW {
-					// the received bool decides whether to continue
-					for _, ref := range *u.Referrers() {
-						if ifi, ok := ref.(*ssa.If); ok && l.Blocks[ifi.Block().Succs[0]] && !l.Blocks[ifi.Block().Succs[1]] {
-							hasRecv = true
+					if u, ok := in.(*ssa.UnOp); ok && u.Op == token.ARROW {
+						// the received bool decides whether to continue
+						for _, ref := range *u.Referrers() {
+							if ifi, ok := ref.(*ssa.If); ok && l.Blocks[ifi.Block().Succs[0]] && !l.Blocks[ifi.Block().Succs[1]] {
+								hasRecv = true
+							}
 						}
 					}
 				}
 			}
-		}
-		if hasRender && hasState && hasRecv {
-			okLoop = true
+			if hasRender && hasState && hasRecv {
+				okLoop = true
+			}
 		}
 	}
 	r.Check(okLoop, rule, "final render loop", w.instrPos(doneArm.Instrs[0]), "render, ask the heap for changes, repeat while it reports some", "the final render is not repeated while the heap reports changes: a bar that finished during the last cycle is not redrawn in its terminal state and never cancelled")
@@ -1278,63 +1290,6 @@ func ruleErrorEdge(w *World, r *Report, pfx string) {
 	r.Floor(rule, 1, "refresh arm")
 }
 
-// ruleErrorPrintedOnce (C15.R3): from each error edge, every path to return writes the error to
-// the debug output exactly once.
-func ruleErrorPrintedOnce(w *World, r *Report, pfx string) {
-	rule := pfx + ".R3p"
-	cont, render := w.containerLoop(), w.renderFn()
-	if cont == nil || render == nil {
-		return
-	}
-	isDebugPrint := func(in ssa.Instruction) bool {
-		c, ok := in.(*ssa.Call)
-		if !ok || c.Call.StaticCallee() == nil || c.Call.StaticCallee().Pkg == nil || c.Call.StaticCallee().Pkg.Pkg.Path() != "fmt" {
-			return false
-		}
-		return len(c.Call.Args) > 0 && isLoad(Val{V: c.Call.Args[0]}, tPState, "debugOut")
-	}
-	n := 0
-	for _, b := range cont.Blocks {
-		for _, in := range b.Instrs {
-			c, ok := in.(*ssa.Call)
-			if !ok || c.Call.StaticCallee() != render {
-				continue
-			}
-			ifi, ok := b.Instrs[len(b.Instrs)-1].(*ssa.If)
-			if !ok {
-				continue
-			}
-			bin, ok := ifi.Cond.(*ssa.BinOp)
-			if !ok || bin.X != ssa.Value(c) {
-				continue
-			}
-			errB := b.Succs[0]
-			if bin.Op == token.EQL {
-				errB = b.Succs[1]
-			}
-			n++
-			bad := ""
-			_, okE := w.absExplore(cont, errB, b, map[ssa.Value]absVal{c: absYes}, 0, func(x ssa.Instruction, st *absState) {
-				if isDebugPrint(x) {
-					st.Count++
-					if st.Count > 1 {
-						bad = "the render error is written to the debug output more than once"
-					}
-				}
-				if _, isRet := x.(*ssa.Return); isRet && x.Block() != cont.Recover && st.Count != 1 {
-					bad = fmt.Sprintf("a path from the render error to the container loop's return writes the error %d times to the debug output (must be exactly once)", st.Count)
-				}
-			})
-			if !okE {
-				r.Undecided(rule, fmt.Sprintf("render error #%d", n), w.instrPos(in), "abstract state cap")
-				continue
-			}
-			r.Check(bad == "", rule, fmt.Sprintf("render error #%d reported", n), w.instrPos(in), "exactly one debug-output write on every path to return", bad)
-		}
-	}
-	r.Floor(rule, 2, "refresh arm and final loop")
-}
-
 // ruleErrorPropagation (C15.R1, R4): errors in render reach its result; the size-query error
 // path closes the abandon signal before returning; draw/extender errors reach frame.err and
 // reset their buffers.
@@ -1347,7 +1302,7 @@ func ruleErrorPropagation(w *World, r *Report, pfx string) {
 	// size query
 	bad := ""
 	saw := false
-	w.enumPaths(render, pathOpts{InlineDepth: 0}, func(p *Path) {
+	w.enumPaths(render, pathOpts{InlineDepth: 2, Inline: func(_ ssa.CallInstruction, c *ssa.Function) bool { return c.Pkg == w.Mpb && c != w.flushFn() }}, func(p *Path) {
 		if p.Exit != "return" || len(p.Ret) != 1 {
 			return
 		}
